@@ -341,6 +341,21 @@ Fixpoint ms_vdot_loop (a b : mfield) (acc : C) : option C :=
 Definition ms_vdot (a b : mfield) : option C :=
   if mdom_eqb a b then ms_vdot_loop a b c0 else None.
 
+(* MultiField._binary_op (multi_field.py:403-411): check_object_identity(self._domain, other._domain);
+   val = tuple(f(v1, v2) for v1, v2 in zip(self._val, other._val)) *)
+Fixpoint mbinop_loop (f : C -> C -> C) (a b : mfield) : option mfield :=
+  match a, b with
+  | [], [] => Some []
+  | x :: r, y :: s =>
+      match cast_rank (erank y) (erank x) (eval_ y), mbinop_loop f r s with
+      | Some vy, Some m => Some (mkEnt (ekey x) (erank x) (edom x) (tzip (erank x) f (eval_ x) vy) :: m)
+      | _, _ => None
+      end
+  | _, _ => None
+  end.
+Definition mbinop (f : C -> C -> C) (a b : mfield) : option mfield :=
+  if mdom_eqb a b then mbinop_loop f a b else None.
+
 (* flexible_addsub(other, neg: bool) (multi_field.py:362-376): union of the keys; a key present in
    both: self[key] -/+ other[key]; only in other: -/+ other[key]; only in self: unchanged.
    (from_dict sorts by key; inputs are sorted, so this is a merge) *)
